@@ -233,7 +233,7 @@ M('c04-wsgi-python-handler-400', 'C04', 'R5', 'falcon/app.py',
 M('c04-asgi-python-handler-no-body', 'C04', 'R5', 'falcon/asgi/app.py',
   "            self._compose_error_response(req, resp, falcon.HTTPInternalServerError())\n", "            resp.status = 500\n")
 M('c04-wsgi-python-handler-strict-decode', 'C04', 'R5', 'falcon/app.py',
-  "        req.log_error(traceback.format_exc())\n", "        req.log_error(traceback.format_exc().encode('ascii').decode())\n")
+  "        req.log_error(traceback.format_exc())\n", "        req.log_error(traceback.format_exc().encode('ascii').decode())\n", also=('C03',))
 
 # ------------------------------------------------ R6 nothing raises before try
 # (R6 reports F8/F10 on the unmutated tree; these add a further violation.  The constructor mutants also break
@@ -261,7 +261,7 @@ M('c04-wsgi-content-type-unguarded', 'C04', 'R6', 'falcon/request.py',
 """, also=('C06',))
 M('c04-wsgi-path-encoded-twice', 'C04', 'R6', 'falcon/request.py',
   "            path = path.encode('iso-8859-1').decode('utf-8', 'replace')\n",
-  "            path = path.encode('iso-8859-1').decode('utf-8', 'replace')\n            path.encode('iso-8859-1')\n", also=('C06',))
+  "            path = path.encode('iso-8859-1').decode('utf-8', 'replace')\n            path.encode('iso-8859-1')\n", also=('C06', 'C16'))
 
 M('c04-to-dict-loop-truthiness', 'C04', 'R4', 'falcon/http_error.py',
   """        if self.description is not None:
@@ -294,11 +294,11 @@ M('c04-default-handler-formats-exception-object', 'C04', 'R5', 'falcon/app.py',
         self._compose_error_response(req, resp, HTTPInternalServerError())
 """, """        req.log_error('%s\\n%s' % (error, traceback.format_exc()))
         self._compose_error_response(req, resp, HTTPInternalServerError())
-""")
+""", also=('C03',))
 M('c04-asgi-default-handler-fstring-exception-object', 'C04', 'R5', 'falcon/asgi/app.py',
   """        falcon._logger.error('[FALCON] Unhandled exception in ASGI app', exc_info=error)
 """, """        falcon._logger.error(f'[FALCON] Unhandled exception in ASGI app: {error}', exc_info=error)
-""")
+""", also=('C03',))
 
 # ---- wave 5: R4 (f) negotiated media type of the default serializer; R8 req.accept
 _NEG_OLD = """    media_handlers = [mt for mt in options.media_handlers if mt not in predefined]
@@ -451,3 +451,104 @@ M('c04-xml-link-text-drops-control-whitespace', 'C04', 'R4', 'falcon/http_error.
   "et.SubElement(link_element, key).text = self.link[key]",
   "et.SubElement(link_element, key).text = self.link[key].translate({9: None, 10: None, 13: None})")
 M('c04-dict-title-stripped', 'C04', 'R4', 'falcon/http_error.py', "        obj['title'] = self.title\n", "        obj['title'] = self.title.strip()\n")
+
+# ---- wave 8
+# R5: str.format / % is total only for a constant template (log_error is reached from the handler of last resort)
+_LOG_OLD = """        log_line = DEFAULT_ERROR_LOG_FORMAT.format(
+            now(), self.method, self.path, query_string_formatted
+        )
+
+        self._wsgierrors.write(log_line + message + '\\n')
+"""
+M('c04-log-error-message-in-format-template', 'C04', 'R5', 'falcon/request.py', _LOG_OLD,
+  """        log_line = (DEFAULT_ERROR_LOG_FORMAT + message).format(
+            now(), self.method, self.path, query_string_formatted
+        )
+
+        self._wsgierrors.write(log_line + '\\n')
+""", also=('C03',))
+M('c04-log-error-template-local-with-message', 'C04', 'R5', 'falcon/request.py', _LOG_OLD,
+  """        template = DEFAULT_ERROR_LOG_FORMAT + message.rstrip() + '\\n'
+        log_line = template.format(
+            now(), self.method, self.path, query_string_formatted
+        )
+
+        self._wsgierrors.write(log_line)
+""", also=('C03',))
+M('c04-log-error-message-in-percent-template', 'C04', 'R5', 'falcon/request.py', _LOG_OLD,
+  """        log_line = DEFAULT_ERROR_LOG_FORMAT.format(
+            now(), self.method, self.path, query_string_formatted
+        )
+
+        self._wsgierrors.write((log_line + message + '%s') % '\\n')
+""", also=('C03',))
+M('c04-log-error-format-field-not-supplied', 'C04', 'R5', 'falcon/request.py', _LOG_OLD,
+  """        log_line = DEFAULT_ERROR_LOG_FORMAT.format(
+            now(), self.method, self.path
+        )
+
+        self._wsgierrors.write(log_line + query_string_formatted + message + '\\n')
+""", also=('C03',))
+
+# R4 (b2): Vary: Accept holds through Response.append_header
+_APPEND_OLD = """            if name in self._headers:
+                value = self._headers[name] + ', ' + value
+
+            self._headers[name] = value
+"""
+M('c04-append-header-skips-substring-duplicate', 'C04', 'R4', 'falcon/response.py', _APPEND_OLD,
+  """            if name in self._headers:
+                current = self._headers[name]
+
+                if value in current:
+                    return
+
+                value = current + ', ' + value
+
+            self._headers[name] = value
+""")
+M('c04-append-header-skips-prefix-duplicate', 'C04', 'R4', 'falcon/response.py', _APPEND_OLD,
+  """            if name in self._headers:
+                if self._headers[name].lower().startswith(value.lower()):
+                    return
+
+                value = self._headers[name] + ', ' + value
+
+            self._headers[name] = value
+""")
+M('c04-append-header-keeps-first-value-only', 'C04', 'R4', 'falcon/response.py', _APPEND_OLD,
+  """            if name in self._headers and name in ('vary', 'allow'):
+                return
+
+            if name in self._headers:
+                value = self._headers[name] + ', ' + value
+
+            self._headers[name] = value
+""")
+
+# R8: the accessor delegates to get_header(): its default only covers a MISSING header
+_ASGI_ACCEPT_OLD = """        try:
+            return self._asgi_headers[b'accept'].decode('latin1') or '*/*'
+        except KeyError:
+            return '*/*'
+"""
+M('c04-asgi-accept-through-get-header-default', 'C04', 'R8', 'falcon/asgi/request.py', _ASGI_ACCEPT_OLD,
+  """        return self.get_header('Accept', default='*/*')
+""", also=('C11',))
+M('c04-asgi-accept-through-get-header-positional-default', 'C04', 'R8', 'falcon/asgi/request.py', _ASGI_ACCEPT_OLD,
+  """        value = self.get_header('Accept', False, '*/*')
+        return value
+""", also=('C11',))
+M('c04-wsgi-accept-through-get-header-default', 'C04', 'R8', 'falcon/request.py',
+  """        try:
+            return self.env['HTTP_ACCEPT'] or '*/*'
+        except KeyError:
+            return '*/*'
+""", """        return self.get_header('Accept', default='*/*')
+""", also=('C11',))
+
+# R9 (= C11 R11): a non-zero weight must not be rounded to q=0
+M('c04-media-range-quality-rounded', 'C04', 'R9', 'falcon/util/mediatypes.py',
+  "        return cls(main_type, subtype, q, params)\n", "        return cls(main_type, subtype, round(q, 3), params)\n", also=('C11',))
+M('c04-media-range-quality-truncated-to-int-thousandths', 'C04', 'R9', 'falcon/util/mediatypes.py',
+  "        return cls(main_type, subtype, q, params)\n", "        return cls(main_type, subtype, int(q * 1000) / 1000, params)\n", also=('C11',))
